@@ -50,6 +50,7 @@ type scn1 struct {
 	FaultAt       []time.Duration
 	PeerMix       []int
 	Unsolicited   int
+	Paced         bool
 	CloseEnd      bool
 }
 
@@ -71,9 +72,12 @@ type gen1 struct {
 }
 
 type harness1 struct {
-	w  *core.World
-	r  *rig.Rig1
-	sc scn1
+	latePending int // late replies the peer has scheduled and not yet sent
+	tail        int
+	pacedBusy   *gen1
+	w           *core.World
+	r           *rig.Rig1
+	sc          scn1
 
 	gens     []*gen1
 	calls    []*call
@@ -121,6 +125,7 @@ func genScn1(t *core.Tape, faulty bool) scn1 {
 		sc.PeerMix = append(sc.PeerMix, t.Weighted("scn", 6, 0, 2, 2))
 	}
 	sc.Unsolicited = t.Choose("scn", 4)
+	sc.Paced = t.Choose("scn", 4) == 0
 	if faulty && sc.Active && t.Choose("scn", 3) == 0 {
 		sc.ColdStart = 1 + t.Choose("scn", 3)
 	}
@@ -208,7 +213,7 @@ func (h *harness1) describe() map[string]any {
 	}
 
 	return map[string]any{"transport": "secs1", "active": sc.Active, "equip": sc.Equip, "device": sc.Device, "coldStartRefusals": sc.ColdStart, "T3": sc.T3.String(), "phases": sc.Phases,
-		"senders": sc.Senders, "sendsPerPhase": sc.PerPhase, "faults": fs, "peerMix": sc.PeerMix, "unsolicitedPerPhase": sc.Unsolicited, "closeAtEnd": sc.CloseEnd}
+		"senders": sc.Senders, "sendsPerPhase": sc.PerPhase, "faults": fs, "peerMix": sc.PeerMix, "unsolicitedPerPhase": sc.Unsolicited, "pacedMultiBlock": sc.Paced, "closeAtEnd": sc.CloseEnd}
 }
 
 func (h *harness1) cur() *gen1 {
@@ -265,7 +270,8 @@ func (h *harness1) newGen() *gen1 {
 		case pReply:
 			reply()
 		case pLate:
-			h.w.After(sc.T3+20*time.Millisecond, "late-reply", reply)
+			h.latePending++
+			h.w.After(sc.T3+20*time.Millisecond, "late-reply", func() { h.latePending--; reply() })
 		}
 	}
 	g.p.OnEnd = func() { g.endAt = h.w.Now() }
@@ -285,6 +291,49 @@ func (h *harness1) peerSend(g *gen1, raw []byte) {
 			g.txMaybe++ // delivered, no ACK seen (connection ended / answer lost with it)
 		}
 	})
+}
+
+// peerSendPaced transmits one message of n full blocks, gap apart, and books it when the library has
+// acknowledged every block.
+func (h *harness1) peerSendPaced(g *gen1, mh refe4.Header, n int, gap time.Duration) {
+	w := h.w
+	w.Probe("paced_multi_block_message_longer_than_T4")
+	h.pacedBusy = g
+	acked := 0
+	var next func(k int)
+	next = func(k int) {
+		if g.p.Dead {
+			return
+		}
+		hd := mh
+		hd.Num, hd.E = uint16(k), k == n
+		body := make([]byte, 244)
+		for i := range body {
+			body[i] = byte(k)
+		}
+		if k == 1 {
+			body[0], body[1], body[2], body[3] = 0x23, byte((n*244-4)>>16), byte((n*244-4)>>8), byte(n*244-4) // one Binary item over all blocks
+		}
+		g.p.SendBlock(refe4.Wire(hd, body), nil, nil, func(res refe4.TxResult) {
+			if res.Outcome == "ack" {
+				acked++
+			}
+			if k == n || res.Outcome != "ack" {
+				h.pacedBusy = nil
+			}
+			switch {
+			case k < n:
+				if res.Outcome == "ack" {
+					w.After(gap, "paced-block", func() { next(k + 1) })
+				}
+			case acked == n:
+				g.txDone = append(g.txDone, res.AnswerAt)
+			case acked == n-1 && res.SentAt > 0 && res.SentAt <= w.Now():
+				g.txMaybe++
+			}
+		})
+	}
+	next(1)
 }
 
 func (h *harness1) observe() {
@@ -333,11 +382,36 @@ func (h *harness1) monitor() {
 		h.arrived = 0
 		h.released = h.phase
 		if h.phase >= h.sc.Phases {
+			if h.sc.Paced && h.latePending == 0 {
+				// a tail phase on the now quiet line: one four-block message whose blocks come 0.45 x T4
+				// apart — every gap inside T4, the whole message longer than T4: complete, so it counts
+				h.tail = 1
+				h.peerSendPaced(h.cur(), refe4.Header{Device: h.sc.Device, R: !h.sc.Equip, Stream: 6, Func: 11, Sys: 0x5F000001}, 4, 900*time.Millisecond)
+				var tick func()
+				tick = func() {
+					if h.tail == 1 && !h.stop {
+						h.w.After(5*time.Millisecond, "paced-tail-tick", tick)
+					}
+				}
+				tick()
+
+				return
+			}
 			h.finish()
 
 			return
 		}
 		h.armFault(h.phase)
+	}
+	if h.tail == 1 && (h.pacedBusy == nil || h.pacedBusy.p.Dead) {
+		if h.pacedBusy == nil && !h.quiet() {
+			return
+		}
+		h.tail = 2
+		if h.pacedBusy == nil {
+			h.quiescent("after the paced four-block message")
+		}
+		h.finish()
 	}
 }
 
@@ -562,7 +636,9 @@ func (h *harness1) quiescent(where string) {
 		return
 	}
 	if got := int(m.DataMsgRecvCount()); got < rLo || got > rHi {
-		w.Fail("RECV_COUNT", "%s: DataMsgRecvCount() = %d but the library acknowledged %d..%d complete messages of the peer while Selected", where, got, rLo, rHi)
+		bm := r.C.BlockMetrics()
+		w.Fail("RECV_COUNT", "%s: DataMsgRecvCount() = %d but the library acknowledged %d..%d complete messages of the peer while Selected (block metrics: %d blocks received, %d duplicates dropped, %d partial messages timed out by T4, %d block-number mismatches, %d invalid first blocks)", where, got, rLo, rHi,
+			bm.BlockRecvCount(), bm.BlockDupDropCount(), bm.PartialTimeoutCount(), bm.BlockNumberMismatchCount(), bm.InvalidFirstBlockCount())
 
 		return
 	}
